@@ -205,4 +205,33 @@ META = {
                 "signature) are don't-care; the replication *service* (gRPC server, token auth) is not part of the simulation",
         "technique": "deterministic simulation: invitation fault enumeration on a real store + replication node as a participant of the simulated network",
     },
+    "C08": {
+        "text": "Two parts. (M) Macro simulation of 2-3 real devices (real GroupContext activation and metadata watcher, real message "
+                "store pipeline with its queues and per-device caches, real secret store and orbit-db) over SimNet: devices activate "
+                "and send at seeded points, entries and chain-key announcements arrive in any order and batch, late connection, then "
+                "anti-entropy to a fixpoint. (C) The same system with store_message.go, group_context.go and internal/queue "
+                "instrumented: the seeded cooperative scheduler interleaves the pipeline goroutines at every lock/unlock/select "
+                "between external events. Oracle at quiescence decided from scheduler/simulator state (nothing enabled, nothing in "
+                "flight), never from a timeout: a message sealed after the sender's announcement to the receiver's member is delivered "
+                "exactly once with the original payload, the main queue is empty, chain keys of all announced devices are known "
+                "everywhere (C05 b).",
+        "design_ref": "section 5, C08 and C05(b); section 4",
+        "note": "required deliveries are those for which the sender had already appended its announcement to the receiver's member "
+                "when it sealed (ground truth read from the sender's index at send time); no drops/restarts in this scenario so one "
+                "arrival per entry; part C is bounded to 2 devices and 1-3 messages",
+        "technique": "deterministic simulation: real devices over simulated network + seeded cooperative scheduling of the message pipeline at injected sync points",
+    },
+    "C20": {
+        "text": "Seeded account histories (contacts, contact-request switch/seed, a joined multi-member group with metadata and messages) on "
+                "a real node; the real service.export writes the archive (checked: both keys once, every log entry once under its CID); "
+                "one archive fault per run (bit flip in an entry / heads / key member, dropped entry, dropped or duplicated key, "
+                "duplicated entry, reordered members, truncation, restore onto a used store) and the real RestoreAccountExport on a "
+                "fresh node with fresh SimDisk/SimDag and no network, on the simulated clock. Clean, reordered or entry-duplicated "
+                "archives must restore to the same account keys and, per exported group, the same entries, heads and C04 state "
+                "digest; the faults the statement lists must be rejected; for every other fault: no panic, and a restore that waits "
+                "for a missing head is recognised as permanent quiescence, not a failure.",
+        "design_ref": "section 5, C20",
+        "note": "single exporting device; byte flips in key members and truncations are only required not to panic (not listed by the statement)",
+        "technique": "deterministic simulation: seeded history + archive fault injection + restore on a fresh simulated node, identity/log/digest equality",
+    },
 }
